@@ -332,6 +332,23 @@ impl<T> Default for OnceLock<T> {
         OnceLock::new()
     }
 }
+impl<T: Clone> Clone for OnceLock<T> {
+    fn clone(&self) -> Self {
+        point(P_ATOMIC_LOAD);
+        OnceLock { inner: self.inner.clone(), running: std::sync::atomic::AtomicBool::new(false) }
+    }
+}
+impl<T: PartialEq> PartialEq for OnceLock<T> {
+    fn eq(&self, other: &Self) -> bool {
+        self.get() == other.get()
+    }
+}
+impl<T: Eq> Eq for OnceLock<T> {}
+impl<T> From<T> for OnceLock<T> {
+    fn from(value: T) -> Self {
+        OnceLock { inner: std::sync::OnceLock::from(value), running: std::sync::atomic::AtomicBool::new(false) }
+    }
+}
 impl<T: fmt::Debug> fmt::Debug for OnceLock<T> {
     fn fmt(&self, f: &mut fmt::Formatter<'_>) -> fmt::Result {
         self.inner.fmt(f)
@@ -372,6 +389,11 @@ impl<T, F: FnOnce() -> T> std::ops::Deref for LazyLock<T, F> {
     type Target = T;
     fn deref(&self) -> &T {
         LazyLock::force(self)
+    }
+}
+impl<T: Default> Default for LazyLock<T> {
+    fn default() -> Self {
+        LazyLock::new(T::default)
     }
 }
 impl<T: fmt::Debug, F> fmt::Debug for LazyLock<T, F> {
